@@ -68,6 +68,8 @@ def oracle(stream, header, ops, obs):
     def check_battery(k, lines):
         if not lines or lines[0].split()[0] != "counts":
             return bad(k, "matrix-battery-missing")
+        if any("mismatch" in x for x in lines):
+            return bad(k, "matrix-accessors-disagree-with-each-other", [x for x in lines if "mismatch" in x][:2])
         c = nums(lines[0])
         if c[0] != len(nodes) or c[1] != len(edges):
             return bad(k, "matrix-node-or-edge-count-wrong", "counts %d %d" % (len(nodes), len(edges)))
